@@ -163,8 +163,12 @@ class OrthoTranslator:
     """Straight-line translation of utils/linalg.py:compute_orthonormal_basis for a 1-D direction and a 1-D metric,
     strip_col at its default.  Types: S scalar, V vector, C vector viewed as a column, M matrix, N nat, SH shape."""
 
-    def __init__(self, fn: ast.FunctionDef):
+    def __init__(self, fn: ast.FunctionDef, branch: int = 1, strip_param: bool = False):
+        """branch = number of dimensions of G_metric (0, 1, 2); strip_param: strip_col stays a parameter (any value) instead of
+        being replaced by its literal default"""
         self.fn = fn
+        self.branch = branch
+        self.strip_param = strip_param
         a = fn.args
         pos = [x.arg for x in a.args]
         if pos != ["dgamma_t0", "G_metric"] or [x.arg for x in a.kwonlyargs] != ["strip_col"]:
@@ -173,7 +177,7 @@ class OrthoTranslator:
         if not (isinstance(d, ast.Constant) and isinstance(d.value, int) and not isinstance(d.value, bool) and d.value >= 0):
             raise Untranslatable("strip_col default is not a non-negative int literal")
         self.strip = d.value
-        self.env = {"dgamma_t0": "V", "G_metric": "V", "strip_col": "N"}
+        self.env = {"dgamma_t0": "V", "G_metric": {0: "S", 1: "V", 2: "M"}[branch], "strip_col": "N"}
         self.shape_of = {}
         self.lets = []
         self.pre = []
@@ -182,7 +186,7 @@ class OrthoTranslator:
     # -- expressions
     def nat(self, n):
         if isinstance(n, ast.Name) and n.id == "strip_col":
-            return str(self.strip)
+            return "strip_col" if self.strip_param else str(self.strip)
         if isinstance(n, ast.Name) and self.env.get(n.id) == "N":
             return n.id
         if isinstance(n, ast.Constant) and isinstance(n.value, int) and not isinstance(n.value, bool) and n.value >= 0:
@@ -219,6 +223,7 @@ class OrthoTranslator:
                 ("Mult", "V", "V"): (f"(vmul {a} {b})", "V"), ("Sub", "V", "V"): (f"(vsub {a} {b})", "V"),
                 ("Add", "V", "V"): (f"(vadd {a} {b})", "V"), ("Div", "V", "S"): (f"(vdivs {a} {b})", "V"),
                 ("Mult", "C", "V"): (f"(outer {a} {b})", "M"), ("Sub", "M", "M"): (f"(msub {a} {b})", "M"),
+                ("MatMult", "M", "V"): (f"(matvec {a} {b})", "V"),
             }
             if (op, ta, tb) not in table:
                 raise Untranslatable(f"operator {op} on types {ta},{tb} in {ast.unparse(n)}")
@@ -236,6 +241,11 @@ class OrthoTranslator:
                 if fn == "torch.zeros_like" and t == "V":
                     return f"(vzeros_like {c})", "V"
                 raise Untranslatable(f"{fn} on type {t}")
+            if isinstance(n.func, ast.Attribute) and n.func.attr == "item" and not n.args and not n.keywords:
+                c, t = self.expr(n.func.value)
+                if t == "S":          # the python number of a 0-d tensor
+                    return c, "S"
+                raise Untranslatable(f"item() on type {t}")
             if isinstance(n.func, ast.Attribute) and n.func.attr == "view" and not n.keywords:
                 c, t = self.expr(n.func.value)
                 if t == "V" and ast.unparse(ast.Tuple(n.args, ast.Load())) == "(-1, 1)":
@@ -277,6 +287,11 @@ class OrthoTranslator:
             self.pre.append("Forall (fun x => 0 < x) G_metric")
         elif t == "G_shape != (dimension,)" and self.shape_of.get("G_shape") == "G_metric" and self.env.get("dimension") == "N":
             self.pre.append("length G_metric = dimension")
+        elif t == "G_metric.item() <= 0" and self.env["G_metric"] == "S":
+            self.pre.append("0 < G_metric")
+        elif t == "G_shape != (dimension, dimension)" and self.shape_of.get("G_shape") == "G_metric" and self.env.get("dimension") == "N" \
+                and self.env["G_metric"] == "M":
+            self.pre.append("length G_metric = dimension /\\ Forall (fun r => length r = dimension) G_metric")
         else:
             raise Untranslatable(f"unknown guard `{t}`")
 
@@ -288,7 +303,7 @@ class OrthoTranslator:
             if t == "dgamma_t0.ndim == 1" and self.env["dgamma_t0"] == "V":
                 return
             if t == "isinstance(strip_col, int) and 0 <= strip_col < dimension" and self.env.get("dimension") == "N":
-                self.pre.append(f"({self.strip} < dimension)%nat")
+                self.pre.append(f"({'strip_col' if self.strip_param else self.strip} < dimension)%nat")
                 return
             raise Untranslatable(f"unknown assertion `{t}`")
         if isinstance(st, ast.Assign) and len(st.targets) == 1:
@@ -312,20 +327,20 @@ class OrthoTranslator:
                 return
             raise Untranslatable(f"assignment {ast.unparse(st)}")
         if isinstance(st, ast.If):
-            # the chain on len(G_shape): take the branch of a 1-D metric
+            # the chain on len(G_shape): take the branch of a metric with `self.branch` dimensions
             t = ast.unparse(st.test)
             mm = None
             for k in (0, 1, 2):
                 if t == f"len(G_shape) == {k}":
                     mm = k
             if mm is not None and self.shape_of.get("G_shape") == "G_metric":
-                if mm == 1:
+                if mm == self.branch:
                     for s in st.body:
                         self.stmt(s)
                     return
                 if len(st.orelse) == 1 and isinstance(st.orelse[0], ast.If):
                     return self.stmt(st.orelse[0])
-                raise Untranslatable("no branch for a 1-D metric")
+                raise Untranslatable(f"no branch for a {self.branch}-D metric")
             return self.guard(st)
         if isinstance(st, ast.Return) and st.value is not None:
             c, t = self.expr(st.value)
@@ -344,8 +359,16 @@ class OrthoTranslator:
             raise Untranslatable("no return")
         # preconditions mention `dimension`: bind it
         pre = " /\\ ".join(f"({p})" for p in self.pre) or "True"
-        out = "Definition gen_ortho_pre (dgamma_t0 G_metric : list R) : Prop :=\n  let dimension := length dgamma_t0 in\n  " + pre + ".\n\n"
-        out += "Definition gen_ortho_basis (dgamma_t0 G_metric : list R) : matrix :=\n"
+        if self.strip_param:
+            gt = {0: "R", 1: "list R", 2: "matrix"}[self.branch]
+            binders = f"(strip_col : nat) (dgamma_t0 : list R) (G_metric : {gt})"
+            sfx = f"_{self.branch}d"
+        else:
+            if self.branch != 1:
+                raise Untranslatable("the default-strip_col translation is the 1-D branch")
+            binders, sfx = "(dgamma_t0 G_metric : list R)", ""
+        out = f"Definition gen_ortho_pre{sfx} {binders} : Prop :=\n  let dimension := length dgamma_t0 in\n  " + pre + ".\n\n"
+        out += f"Definition gen_ortho_basis{sfx} {binders} : matrix :=\n"
         for n, c in self.lets:
             out += f"  let {n} := {c} in\n"
         out += f"  {self.ret}.\n"
@@ -358,7 +381,25 @@ def translate_linalg():
     fns = [n for n in tree.body if isinstance(n, ast.FunctionDef) and n.name == "compute_orthonormal_basis"]
     if len(fns) != 1:
         raise Untranslatable("compute_orthonormal_basis not found in utils/linalg.py")
-    return OrthoTranslator(fns[0]).run()
+    out = OrthoTranslator(fns[0]).run()
+    # every branch of the code (0-D / 1-D / 2-D metric), strip_col a parameter
+    out += f"\nDefinition gen_ortho_strip_default : nat := {OrthoTranslator(fns[0]).strip}.\n"
+    for b in (0, 1, 2):
+        out += "\n" + OrthoTranslator(fns[0], branch=b, strip_param=True).run()
+    # the chain on the number of dimensions of the metric has exactly these three branches, then a raise
+    chains = [n for n in ast.walk(fns[0]) if isinstance(n, ast.If) and ast.unparse(n.test) == "len(G_shape) == 0"]
+    if len(chains) != 1:
+        raise Untranslatable("no single `if len(G_shape) == 0` chain")
+    c, tests = chains[0], []
+    while True:
+        tests.append(ast.unparse(c.test))
+        if len(c.orelse) == 1 and isinstance(c.orelse[0], ast.If):
+            c = c.orelse[0]
+        else:
+            break
+    if tests != [f"len(G_shape) == {k}" for k in (0, 1, 2)] or not (len(c.orelse) == 1 and isinstance(c.orelse[0], ast.Raise)):
+        raise Untranslatable(f"metric branches are {tests} + {[type(x).__name__ for x in c.orelse]}")
+    return out
 
 
 # ============================================================================== T1 (c): the re-centring scripts by ast
